@@ -111,6 +111,8 @@ pub struct StateMachine<'a> {
     pub handled_diff_header_header_line_file_pair: Option<(String, String)>,
     pub blame_key_colors: HashMap<String, String>,
     pub minus_line_counter: AmbiguousDiffMinusCounter,
+    // Inside a `GIT binary patch` block of a diff header.
+    pub in_binary_patch: bool,
 }
 
 pub fn delta<I>(lines: ByteLines<I>, writer: &mut dyn Write, config: &Config) -> std::io::Result<()>
@@ -139,6 +141,7 @@ impl<'a> StateMachine<'a> {
             config,
             blame_key_colors: HashMap::new(),
             minus_line_counter: AmbiguousDiffMinusCounter::not_needed(),
+            in_binary_patch: false,
         }
     }
 
@@ -190,7 +193,7 @@ impl<'a> StateMachine<'a> {
                 || self.handle_git_show_file_line()?
                 || self.handle_blame_line()?
                 || self.handle_grep_line()?
-                || self.should_skip_line()
+                || self.handle_other_diff_header_line()?
                 || self.emit_line_unchanged()?;
         }
         #[cfg(dandavison_delta_verif)]
@@ -258,6 +261,51 @@ impl<'a> StateMachine<'a> {
         matches!(self.state, State::DiffHeader(_))
             && self.should_handle()
             && !self.config.color_only
+    }
+
+    /// In a diff header, skip the metadata lines which are not shown. A line which is not file
+    /// metadata (e.g. the first line of the next commit in `git log --oneline -p`, after a
+    /// file without hunks) ends the header: it is not skipped.
+    pub fn handle_other_diff_header_line(&mut self) -> std::io::Result<bool> {
+        if !self.should_skip_line() {
+            return Ok(false);
+        }
+        const METADATA: [&str; 16] = [
+            "diff ",
+            "index ",
+            "mode ",
+            "old mode ",
+            "new mode ",
+            "new file mode ",
+            "deleted file mode ",
+            "similarity index ",
+            "dissimilarity index ",
+            "rename from ",
+            "rename to ",
+            "copy from ",
+            "copy to ",
+            "--- ",
+            "+++ ",
+            "Binary files ",
+        ];
+        if ["GIT binary patch", "literal ", "delta "]
+            .iter()
+            .any(|s| self.line.starts_with(s))
+        {
+            self.in_binary_patch = true;
+            return Ok(true);
+        }
+        if self.in_binary_patch {
+            // (encoded data, ended by an empty line)
+            self.in_binary_patch = !self.line.is_empty();
+            return Ok(true);
+        }
+        if self.line.is_empty() || METADATA.iter().any(|s| self.line.starts_with(s)) {
+            return Ok(true);
+        }
+        self.handle_pending_line_with_diff_name()?;
+        self.state = State::Unknown;
+        Ok(false)
     }
 
     /// Emit unchanged any line that delta does not handle.
